@@ -32,12 +32,14 @@ type World struct {
 }
 
 type worldOpts struct {
-	stores   int
-	labels   func(i int) map[string]string
-	cfgTweak func(*config.Config)
-	faults   bool
-	replicas int
-	noInitHB bool
+	stores     int
+	labels     func(i int) map[string]string
+	cfgTweak   func(*config.Config)
+	faults     bool
+	replicas   int
+	noInitHB   bool
+	fastPatrol bool
+	schedulers bool
 }
 
 // onPD runs f as a task on the PD node and waits for it.
@@ -47,8 +49,20 @@ func (w *World) onPD(label string, f func()) {
 
 func newWorld(rc *corepkg, o worldOpts) *World {
 	e := e1.Setup(rc, e1.Opts{MinNodes: 1, MaxNodes: 1, Faults: false})
-	if o.cfgTweak != nil {
-		e.W.Nodes[0].CfgTweak = o.cfgTweak
+	e.W.Nodes[0].CfgTweak = func(c *config.Config) {
+		// the TSO daemon is not the subject of the cluster profiles: tick it slowly to save scheduler steps
+		c.TSOUpdatePhysicalInterval.Duration = 2 * time.Second
+		if !o.fastPatrol {
+			c.Schedule.PatrolRegionInterval.Duration = time.Second
+		}
+		if !o.schedulers {
+			// the built-in schedulers are not the subject: keep them registered but disabled
+			c.Schedule.Schedulers = config.SchedulerConfigs{
+				{Type: "balance-region", Disable: true}, {Type: "balance-leader", Disable: true}, {Type: "hot-region", Disable: true}, {Type: "label", Disable: true}}
+		}
+		if o.cfgTweak != nil {
+			o.cfgTweak(c)
+		}
 	}
 	if !e.StartAll() {
 		return nil
